@@ -215,6 +215,9 @@ func engineC44(c *vctx) error {
 		n := 1 + rng.intn(4)
 		g := 2 + rng.intn(7)
 		total := 5 + rng.intn(60)
+		if r%5 == 4 { // stress: many savers hammering few packers that fill up quickly
+			ps, n, g, total = 50, 1+rng.intn(2), 16, 250+rng.intn(100)
+		}
 		q := &c44Queue{finOK: true}
 		tree := rng.bool()
 		tpe := restic.DataBlob
@@ -234,7 +237,11 @@ func engineC44(c *vctx) error {
 			go func(w int) {
 				defer wg.Done()
 				for i := w; i < total; i += g {
-					_, _ = pm.SaveBlob(ctx, tpe, c44ID(uint64(i+1)), zeros[:lens[i]], 0)
+					if _, err := pm.SaveBlob(ctx, tpe, c44ID(uint64(i+1)), zeros[:lens[i]], 0); err != nil {
+						q.mu.Lock()
+						q.finOK = false // SaveBlob must not fail on a healthy temp dir
+						q.mu.Unlock()
+					}
 				}
 			}(w)
 		}
